@@ -2,6 +2,7 @@ import ComposeVerif.Lemmas.Locked
 import ComposeVerif.Lemmas.LockedLive
 import ComposeVerif.Props.C19Locks
 import ComposeVerif.Gen.ConcWrites
+import ComposeVerif.Gen.LockSource
 import ComposeVerif.Neg.C19Conc
 /-!
 # C19 — what the goroutines of the library's own parallel operations may write (round 6)
@@ -85,6 +86,47 @@ theorem fanout_counter_is_confined_to_the_collector :
     (fanoutParallelWrites.filter (fun (_, _, k, _, _) => k == "field" || k == "elem" || k == "deref" || k == "global")).map
       (fun (_, x, _, _, _) => x) = ["newProject.Services"] := by
   decide
+
+/-! ### the lockset discipline of the traversal, from the regenerated tables alone -/
+
+/-- one access of the parallel region: location, is-write, mutexes held, where it runs (`worker` = any goroutine of the
+    region, `collector` = closure #0 of `walk`, `before-spawn` = before the first `eg.Go`, `after-join` = after `walk` returned) -/
+abbrev Acc := String × Bool × List String × String
+
+/-- every access of the locations that are written in the region: the guarded fields (`travGuardedFieldAccesses`, reads
+    included) and the captured counter (`travCapturedVarAccesses`) -/
+def travAccessTable : List Acc :=
+  travGuardedFieldAccesses.map (fun (e, f, k, held) =>
+    (e, k == "write", held, if f == "graph.CollectInDependencyOrder" then "after-join" else "worker")) ++
+  travCapturedVarAccesses.map (fun (v, _, k, place) =>
+    (v, k == "write", [], if place == "before-first-go" then "before-spawn" else if place == "closure#0" then "collector" else "worker"))
+
+/-- two accesses cannot race: different locations, two reads, a common mutex, one of them ordered against everything by
+    spawn / join, or both inside the one collector goroutine -/
+def compatible (a b : Acc) : Bool :=
+  a.1 != b.1 || (!a.2.1 && !b.2.1) || a.2.2.1.any (fun m => b.2.2.1.contains m) ||
+  a.2.2.2 == "before-spawn" || b.2.2.2 == "before-spawn" || a.2.2.2 == "after-join" || b.2.2.2 == "after-join" ||
+  (a.2.2.2 == "collector" && b.2.2.2 == "collector")
+
+set_option maxRecDepth 16384 in
+/-- **lockset discipline of the dependency-ordered traversal** (Eraser-style, decided on the regenerated tables): every
+    location stored to in the parallel region is `t.status`, `t.results` or `expect`; every two accesses of one of them
+    (reads included), at least one a store, hold the common mutex `t.mu`, or are both in the collector goroutine, or one
+    of them is ordered against all goroutines by the spawn (`before-first-go`) or by the join (`CollectInDependencyOrder`
+    reads `t.results` after `walk` — `eg.Wait` — returned) -/
+theorem traversal_lockset_discipline :
+    travAccessTable.all (fun a => travAccessTable.all (fun b => compatible a b)) = true ∧
+    travResultsReadAfterWalk = true ∧
+    travParallelWrites.all (fun (_, x, _, _, _) =>
+      travAccessTable.any (fun a => a.2.1 && (a.1 == x || a.1 ++ "[v.key]" == x))) = true := by
+  decide
+
+/-- the discipline is not vacuous: the table has the 6 + 5 accesses, 4 of them stores outside `before-spawn` -/
+example : travAccessTable.length = 11 ∧
+    (travAccessTable.filter (fun a => a.2.1 && a.2.2.2 != "before-spawn")).length = 4 := by decide
+
+/-- … and it does reject an unprotected store next to the workers' reads -/
+example : compatible ("t.status", true, [], "worker") ("t.status", false, ["t.mu"], "worker") = false := by decide
 
 end CV.Gen
 
